@@ -133,10 +133,16 @@ CHECKS = {
         "text": "Ebpf.tla models the two kernel hook points (cgroup/connect4, kprobe tcp_connect) as separately "
                 "interleavable steps of arbitrary threads over the four maps; TLC checks RedirectExactly, RecordTruth, "
                 "NoRecordOtherwise, AgentUntouched exhaustively for 4 threads (uid != gid, pid != tid, the agent); "
+                "the end of a connection (EndUnconsumed) is a step apart from the consumption of its record (Release), "
+                "so records outlive connections and their source ports are handed out again (mc/EbpfLeft.cfg: a "
+                "diverted connect must find its OWN record under a reused port, a connect that produces no record "
+                "leaves a leftover untouched, the LRU map evicts only leftovers); "
                 "TLC-generated behaviours are replayed step by step on a user-space build of the UNMODIFIED "
                 "ebpf_cgroup.c/socket.h (gcc + shim helpers/maps), with policy/skip keys produced by the repo's Rust "
                 "encoders and audit records decoded by the repo's Rust decoders, and seeded random runs (up to 200 "
-                "connections in flight) are validated by TLC against the property-level trace spec.",
+                "connections in flight, connections ending unconsumed, port reuse) plus a directed family of "
+                "port-reuse runs (leftover then diverted / unlisted / agent / fallback connect, LRU eviction of a "
+                "leftover) are validated by TLC against the property-level trace spec.",
         "note": "BPF helper/map semantics are a user-space model after bpf-helpers(7) (strict LRU); verifier/JIT and a "
                 "live kernel attach are not involved (CONFIG_KPROBES is off in the sandbox). x86-64 only.",
         "technique": "TLA+ spec + TLC model checking; spec->impl step replay on the compiled C program; impl->spec trace validation",
@@ -162,9 +168,15 @@ CHECKS = {
                 "pre-filled directories and restarts; TLC checks the count/size bounds after every step exhaustively "
                 "for small constants; TLC-generated behaviours are replayed on the real RollingLogger / event_logger / "
                 "write_all comparing the directory listing after every operation, and long random histories with the "
-                "real constants are validated by TLC against the property-level trace spec.",
+                "real constants are validated by TLC against the property-level trace spec. The model also has the "
+                "event logger's graceful stop (stop flag -> queue closed -> last flush under the same cap check -> task "
+                "ends; driver op ev_stop, push/stop/restart cycles over directories found full) and a rename fault of "
+                "the environment (the roll fails, the write is refused, nothing grows; driver ops log_pin/log_unpin "
+                "bind-mount the current log file onto itself in the driver's private mount namespace), both explored "
+                "exhaustively, replayed, and validated on the real byte numbers.",
         "note": "One writer per log, wall clock monotone between rolls/dumps (oldest decided by name). Kill between "
-                "system calls inside a roll is outside C19's quantifier (reported as coverage.crash_window).",
+                "system calls inside a roll is outside C19's quantifier (reported as coverage.crash_window). The "
+                "rename fault is realised as EBUSY on a bind-mounted file; needs `unshare -m` (root).",
         "technique": "TLA+ spec + TLC model checking; spec->impl behaviour replay; impl->spec trace validation",
         "design_ref": "DESIGN.md §3 DiskBounds.tla",
     },
